@@ -8,12 +8,27 @@ import dbmodel as M
 import iotie
 
 PURE_KINDS = ["read", "getter", "reindex", "remove_none", "update_nochange", "update_nomatch", "len_iter", "handle_read", "update_all_same", "unset_other_namespace", "time_neighbour_nomatch", "grown_file_nomatch"]
+SWEPT = {"remove_none": 8, "update_nochange": 4, "unset_other_namespace": 5, "update_nomatch": 2, "len_iter": 4}      # kinds whose options are swept: number of options
 WRITE_KINDS = ["insert", "remove_some", "update_some", "drop", "remove_all", "update_raises", "insert_multiple_bad", "remove_all_match", "update_all_match"]
 MUTATING_P_CALLS = {"write", "truncate"}
 
 
+class _Pick:
+    """r.choice, or - when the sweep asks for option number g.opt - that option"""
+
+    def __init__(self, g):
+        self.g = g
+
+    def choice(self, opts):
+        o = getattr(self.g, "opt", None)
+        return self.g.r.choice(opts) if o is None else opts[o % len(opts)]
+
+    def __getattr__(self, name):
+        return getattr(self.g.r, name)
+
+
 def make_op(g, kind):
-    r = g.r
+    r = _Pick(g) if kind in SWEPT else g.r
     j = r.randrange(1, g.ids) if g.ids > 1 else 1
     one = ("S", "tags", [("k", "id")], ("cmp", "==", ("s", str(j))))
     nomatch = ("S", "tags", [("k", "id")], ("cmp", "==", ("s", "nope")))
@@ -81,14 +96,25 @@ def main(tier, seed):
     refused = []
     # the storage's I/O calls are regenerated from storages.py (symbolic execution) and proved equal to the model's scripts (proofs/IOGenP.v)
     b = ck.build_proofs("Prop_C15", pre=lambda: run_translator("py2coq_io.py", "tinyflux/storages.py", "gen/IOGen.v", refused), extra_targets=["Run.vo", "IO.vo"])
-    n = 160 if tier == "quick" else 1500
+    n = 231 if tier == "quick" else 1617          # 33 kinds x 7 access modes: every kind meets every mode
     kinds = PURE_KINDS * 2 + WRITE_KINDS
     modes = [None, None, "r+", "r", "r", "a", "w+"]
     direct_bad, coq_cases, stats, seen = [], [], {}, set()
-    for i in range(n):
+    # after the n sampled cases: EVERY option of the kinds that have several (which removal that matches nothing, which update that changes nothing,
+    # which way of unsetting a key of the other namespace, ...) once in every access mode - what is caught does not depend on the random choice
+    jobs = [(i, None, None, None) for i in range(n)]
+    j = n
+    for sk, nopt in SWEPT.items():
+        for o in range(nopt):
+            for sm in (None, "r", "a", "w+"):
+                jobs.append((j, sk, sm, o))
+                j += 1
+    for i, kind_over, mode_over, opt_over in jobs:
         g = dbgen.Gen((seed << 14) + i, {"p_selective": 1.0, "allow_raise": False})
+        g.opt = opt_over
         r = g.r
         g.ids = 1
+        kind = kind_over or kinds[i % len(kinds)]
         auto = r.random() < 0.7
         pts = g.points_batch(r.choice([1, 2, 3, 5, 8]), in_order=r.random() < 0.7)
         for p in pts:
@@ -99,26 +125,30 @@ def main(tier, seed):
         if r.random() < 0.5 and len(pts) > 1:
             pts[-1]["fields"]["a"] = 2                  # fields callable 3 raises on this one (after earlier rows were staged)
         hist = [("insert", pts, None, "multiple") + (("compact",) if r.random() < 0.5 else ())]
-        if r.random() < 0.4 or kinds[i % len(kinds)] == "update_all_same":
+        if r.random() < 0.4 or kind == "update_all_same":
             hist.append(("update_all", {"tags": ("static", {"same": "v"}), "fields": ("static", {"same": 1})}))
             hist.append(("insert", [g.point()], None, "compact"))
             hist.append(("update_all", {"tags": ("static", {"same": "v"}), "fields": ("static", {"same": 1})}))
         for _ in range(r.choice([0, 1, 2])):
             hist.append(r.choice([g.read_op(), ("get", g.query(), None), ("insert", [g.point()], None)]))
-        kind = kinds[i % len(kinds)]
+        if kind in ("read", "getter", "len_iter", "handle_read", "reindex") and i % 3 == 1:
+            # the operation before the read is a batch insert that RAISED part-way: whatever it left in a buffer is part of that insert, not of the read
+            hist.append(("insert", [g.point(), None, g.point()], None, "multiple"))
         if kind == "update_all_same":
             # every stored point already carries the values: the update changes nothing; rows are in compact-prefix form
             for p in pts:
                 p["tags"]["same"], p["fields"]["same"] = "v", 1
             hist = [("insert", pts, None, "multiple", "compact"), ("get", g.query(), None)]
-        mode = modes[(3 * i + 5 * (i // len(kinds))) % len(modes)]          # every kind meets every mode within a few rounds (checked for 27 kinds)
+        mode = modes[(3 * i + 5 * (i // len(kinds))) % len(modes)]          # every kind meets every mode within seven rounds
+        if kind_over:
+            mode = mode_over
         if kind == "update_all_match":
             # the index must be valid when the call is made: points in time order, nothing in between
             auto = True
             pts.sort(key=lambda p: p["time"])
             hist = [("insert", pts, None, "multiple")]
         op = make_op(g, kind)
-        if kind == "update_nochange" and (i // len(kinds)) % 3 != 2:
+        if kind == "update_nochange" and opt_over is None and (i // len(kinds)) % 3 != 2:
             # the time a point already has, handed in again - in another zone, or as a naive datetime (local time): the same instant, no change;
             # the rows are in compact-prefix form, so a needless rewrite shows in the bytes
             tgt = [p for p in pts if "id" in p["tags"]]
@@ -126,7 +156,7 @@ def main(tier, seed):
                 p0 = r.choice(tgt)
                 hist = [("insert", pts, None, "multiple", "compact")] + [h for h in hist[1:] if h[0] not in ("insert", "update_all")]
                 op = ("update", ("S", "tags", [("k", "id")], ("cmp", "==", ("s", p0["tags"]["id"]))), {"time": ("static", p0["time"]), "naive_time": i % len(kinds) < 9}, None)
-        if kind == "update_nochange" and (i // len(kinds)) % 3 == 2:
+        if kind == "update_nochange" and opt_over is None and (i // len(kinds)) % 3 == 2:
             # a call whose steps cancel out: a key set and unset by the same call, on points that never had it (unset wins) - nothing changes; compact rows
             hist = [("insert", pts, None, "multiple", "compact")] + [h for h in hist[1:] if h[0] not in ("insert", "update_all")]
             op = r.choice([("update_all", {"tags": ("static", {"zz9": "x"}), "unset_tags": ["zz9"]}),
